@@ -1,6 +1,7 @@
 package main
 
 import (
+	"strings"
 	"fmt"
 	"encoding/base64"
 	"go/types"
@@ -72,7 +73,13 @@ func (in *Interp) b64Decode(kind string, s *Str) (*Str, bool) {
 	case sBytes:
 		c, ok := s.Concrete()
 		if !ok {
-			panic(engineErr("base64 decoding of symbolic bytes is outside the encoding in %s", in.where()))
+			// byte-precise symbolic text: well-formedness is an uninterpreted predicate of the text, the
+			// decoded bytes are opaque
+			in.summUsed["assumption: base64 well-formedness of symbolic text is uninterpreted; decoded bytes opaque"] = true
+			if in.branch(in.freshBool("b64ok:" + s.Key())) {
+				return ghostStr("garbage", s), true
+			}
+			return nil, false
 		}
 		b, err := nativeB64(kind).DecodeString(c)
 		if err != nil {
@@ -95,10 +102,24 @@ func (in *Interp) b64Decode(kind string, s *Str) (*Str, bool) {
 		}
 		panic(engineErr("base64 decoding of %s ghost", s.G.Ctor))
 	case sAtom:
-		panic(engineErr("base64 decoding of opaque atom %s (build the value structurally) in %s", s.Name, in.where()))
+		// atoms are letter strings: inside the alphabet; only the length class 4k+1 is malformed
+		if in.branch(Eq(URem(alen(s.Atom), BVu(64, 4)), BVu(64, 1))) {
+			return nil, false
+		}
+		return ghostStr("garbage", s), true
 	case sConcat:
-		// b64(x) followed by extra bytes: malformed unless everything is structurally b64
-		panic(engineErr("base64 decoding of concatenation %s", s.Key()))
+		// an encoder output followed/preceded by extra literal text
+		for _, p := range s.Parts {
+			if c, ok := p.Concrete(); ok {
+				for i := 0; i < len(c); i++ {
+					if !strings.ContainsRune("ABCDEFGHIJKLMNOPQRSTUVWXYZabcdefghijklmnopqrstuvwxyz0123456789-_", rune(c[i])) {
+						return nil, false // padding or any other character outside the raw URL alphabet
+					}
+				}
+			}
+		}
+		// still inside the alphabet: decodes to some other byte string (not the original)
+		return ghostStr("garbage", s), true
 	}
 	return nil, false
 }
